@@ -32,6 +32,17 @@ func obsOfSearchCompiled(jp *jmespath.JMESPath, doc interface{}) (o Obs) {
 
 // canon: a comparable rendering of an observation; arrays are sorted when the
 // expression exposes object iteration order.
+// canonFor: when the expression exposes the iteration order of an object with
+// several members, two correct calls may return different values (an index or a
+// slice of a wildcard result), not merely permuted ones: only the kind of outcome
+// is compared then, as in the comparison with the model (modeFor).
+func canonFor(o Obs, perm bool, text string, doc interface{}) string {
+	if perm && modeFor(text, doc) == "kind" {
+		return o.Kind
+	}
+	return canon(o, perm)
+}
+
 func canon(o Obs, perm bool) string {
 	if o.Kind != "val" {
 		return o.Kind
@@ -111,12 +122,12 @@ func famC13(r *Run) {
 			fresh, _ := jmespath.Compile(text)
 			want := obsOfSearchCompiled(fresh, deepCopy(d))
 			one := observeSearch(text, deepCopy(d))
-			if canon(got, perm) != canon(want, perm) {
+			if canonFor(got, perm, text, d) != canonFor(want, perm, text, d) {
 				r.violate("G-hist", text, d, fmt.Sprintf("call %d on a used compiled expression differs from a fresh one", k+1),
 					"history: "+strings.Join(hist, " ; ")+" got "+got.String()+" want "+want.String())
 				break
 			}
-			if canon(one, perm) != canon(want, perm) {
+			if canonFor(one, perm, text, d) != canonFor(want, perm, text, d) {
 				r.violate("G-hist", text, d, "one-shot Search differs from Compile+Search", "one-shot "+one.String()+" compiled "+want.String())
 				break
 			}
@@ -159,6 +170,7 @@ func famC13(r *Run) {
 			}
 		}
 	}
+	famC13extra(r)
 }
 
 func parseObs(p *jmespath.Parser, expr string) (a AObs) {
@@ -305,6 +317,7 @@ func famC14(r *Run) {
 			r.addTok("compliance:"+c.File, c.Expr)
 		}
 	}
+	famC14extra(r)
 }
 
 func rawOrLit(s string) string {
